@@ -212,6 +212,28 @@ def check(ctx):
                 fails_single[k1] = (desc, sent)
         else:
             fails_pair.append((k1, k2, desc, sent))
+    # ---- typedef-name re-declaration family (C99 6.2.1/6.7.7: an inner declaration may reuse a visible typedef name as the declared identifier) ----
+    SH_SPECS = {"int": ["INT"], "unsigned long": ["UNSIGNED", "LONG"], "struct tag": ["STRUCT", "ID"], "struct body": ["STRUCT", "ID", "LBRACE", "INT", "ID", "SEMI", "RBRACE"], "union tag": ["UNION", "ID"],
+                "enum tag": ["ENUM", "ID"], "enum body": ["ENUM", "LBRACE", "ID", "RBRACE"], "typedef name": ["TYPEID"], "const int": ["CONST", "INT"], "static int": ["STATIC", "INT"], "_Atomic(int)": ["_ATOMIC", "LPAREN", "INT", "RPAREN"]}
+    SH_DECLS = {"T": ["TYPEID"], "*T": ["TIMES", "TYPEID"], "T[3]": ["TYPEID", "LBRACKET", "INT_CONST_DEC", "RBRACKET"], "(*T)(void)": ["LPAREN", "TIMES", "TYPEID", "RPAREN", "LPAREN", "VOID", "RPAREN"],
+                "T = 1": ["TYPEID", "EQUALS", "INT_CONST_DEC"], "q, T": ["ID", "COMMA", "TYPEID"], "T, q": ["TYPEID", "COMMA", "ID"], "*T = 0": ["TIMES", "TYPEID", "EQUALS", "INT_CONST_DEC"]}
+    SH_CTX = {"block": (["INT", "ID", "LPAREN", "VOID", "RPAREN", "LBRACE"], ["SEMI", "RBRACE"]), "for-init": (["INT", "ID", "LPAREN", "VOID", "RPAREN", "LBRACE", "FOR", "LPAREN"], ["SEMI", "SEMI", "RPAREN", "SEMI", "RBRACE"]),
+              "parameter": (["VOID", "ID", "LPAREN"], ["RPAREN", "SEMI"])}
+    nsh = 0
+    for cname, (pre, post) in SH_CTX.items():
+        for sname, sp in SH_SPECS.items():
+            for dname, dc in SH_DECLS.items():
+                if cname == "parameter" and ("," in dname or "=" in dname or sname == "static int"):
+                    continue
+                sent = tuple(pre + sp + dc + post)
+                ok = rec.accepts(TOP, sent)
+                nsh += 1
+                n += 1
+                ctx.oblige("R-C01.3", "shadow " + " ".join(sent), ok, nontrivial=True, sample={"rule": "R-C01.3", "reference construct": f"{cname}: `{sname} {dname}` re-declaring the typedef name T", "sentence": " ".join(sent), "verdict": "accepted by the model" if ok else "REJECTED"} if (not ok or nsh % 60 == 1) else None)
+                if not ok:
+                    ctx.violation("R-C01.3", f"missing:shadow:{cname}:{sname}:{dname}", f"valid construct not accepted - in a {cname}, the declaration `{sname} {dname}` that re-declares a visible typedef name T as the declared identifier: token sequence `{' '.join(sent)}` "
+                                  "is valid C99 (6.7.7, 6.2.1) but no path of the parser model consumes it", file=px.rel, function="CParser (grammar model)", construct=" ".join(sent))
+    ctx.unit("typedef-name re-declaration sentences", nsh)
     ctx.unit("reference sentences", n)
     ctx.unit("reference nonterminals", len(ref.rules))
     for k1, (desc, sent) in sorted(fails_single.items()):
